@@ -240,9 +240,42 @@ Lemma mgrop_end p t : mgr p = MOps t [] ->
                             | _ => set_mgr p MDone end.
 Proof. intros M. unfold step. rewrite M. destruct t; reflexivity. Qed.
 
-Lemma step_inv p e : e <> ResizeTopUp -> Inv p -> Inv (step p e).
+Lemma resize_guard_ok : resize_tops_up_only_on_a_live_pool = true. Proof. reflexivity. Qed.
+
+(* a pool that is open (not closed) keeps its phase condition when something changes that leaves it open, the broken flag and the
+   manager's position alone *)
+Lemma open_phase p q :
+  closed p = false -> closed q = false -> broken q = broken p -> mgr q = mgr p ->
+  match mgr p with
+  | MLoop => True
+  | MOps t ops => wf_ops ops = true /\ exists a, approx p a /\ awf a = true /\ good t ops a = true
+  | MDone => pending p = 0 /\ procs p = [] /\ closed p = true
+  end ->
+  match mgr q with
+  | MLoop => True
+  | MOps t ops => wf_ops ops = true /\ exists a, approx q a /\ awf a = true /\ good t ops a = true
+  | MDone => pending q = 0 /\ procs q = [] /\ closed q = true
+  end.
 Proof.
-  intros NE HI. pose proof HI as (I1 & I2 & I3 & SL & I4). destruct e; try congruence; unfold step.
+  intros NC Cq Bq Mq I4. rewrite Mq. destruct (mgr p) as [|t ops|]; [exact I| |].
+  - destruct I4 as (Wf & a & (Ac & Ab & Az & Ae) & W & Gd). split; [exact Wf|]. exists a. split; [|split; assumption].
+    assert (a_c a = false) by (destruct (a_c a); [specialize (Ac eq_refl); congruence | reflexivity]).
+    unfold awf in W. rewrite H in W. simpl in W. apply negb_true_iff, orb_false_iff in W. destruct W as [Wz We].
+    unfold approx. rewrite H, Wz, We. repeat split; try discriminate. intros X. rewrite Bq. apply Ab, X.
+  - destruct I4 as (_ & _ & C). congruence.
+Qed.
+
+Lemma step_inv p e : Inv p -> Inv (step p e).
+Proof.
+  intros HI. pose proof HI as (I1 & I2 & I3 & SL & I4). destruct e; unfold step.
+  13: { (* ResizeTopUp *)
+    rewrite resize_guard_ok. cbn [negb orb].
+    destruct (user p && (negb (closed p) && negb (broken p))) eqn:G; [|exact HI].
+    apply andb_true_iff in G. destruct G as [U G]. apply andb_true_iff in G. destruct G as [NC NB].
+    apply negb_true_iff in NC. apply negb_true_iff in NB.
+    unfold Inv. simpl. split; [exact I1|]. split; [exact I2|]. split; [rewrite app_length, repeat_length; lia|].
+    split; [apply (sublive_same p); auto|].
+    apply (open_phase p (top_up p)); auto. }
   - (* Submit: the leading checks *)
     destruct (user p && lock_free p) eqn:G; [|exact HI]. apply andb_true_iff in G. destruct G as [U LF].
     assert (SN : sub p = None) by (unfold lock_free in LF; destruct (sub p); [discriminate | reflexivity]).
@@ -413,11 +446,9 @@ Proof.
            unfold good. rewrite (apaths_simple_app ops r a Wi). exact G1.
 Qed.
 
-Lemma run_inv es : forall p, no_resize es = true -> Inv p -> Inv (run es p).
+Lemma run_inv es : forall p, Inv p -> Inv (run es p).
 Proof.
-  unfold run. induction es as [|e es IH]; intros p N I; simpl; [exact I|].
-  simpl in N. apply andb_true_iff in N. destruct N as [Ne N]. apply IH; [exact N|]. apply step_inv; [|exact I].
-  intros ->. discriminate.
+  unfold run. induction es as [|e es IH]; intros p I; simpl; [exact I|]. apply IH. apply step_inv. exact I.
 Qed.
 
 (* the number of registered workers never exceeds max_workers, resize top-ups included *)
@@ -449,7 +480,7 @@ Proof.
         pose proof (flag_shutdown_sets None p) as Fs. cbv zeta in Fs. destruct Fs as (_ & _ & _ & _ & _ & Prs & _ & _ & _ & _ & _ & Mxs & _).
         destruct o; unfold cprim; rewrite ?Prb, ?Mxb, ?Prs, ?Mxs; simpl; rewrite ?map_length; auto; split; auto; lia. }
       destruct t, o; simpl; try exact H; auto; destruct (lock_free p); simpl; try exact H; auto.
-  - destruct (user p); auto. simpl. rewrite app_length, repeat_length. lia.
+  - destruct (user p && (negb resize_tops_up_only_on_a_live_pool || negb (closed p) && negb (broken p))); auto. simpl. rewrite app_length, repeat_length. lia.
 Qed.
 Theorem never_more_than_max es : forall p, length (procs p) <= maxw p -> length (procs (run es p)) <= maxw p.
 Proof.
@@ -462,23 +493,22 @@ Qed.
 Section Reachable.
 Variable n : nat.
 Variable es : list ev.
-Hypothesis NR : no_resize es = true.
 Let p := run es (pool0 n).
 
 Theorem loud_before_any_broken_future : failB p > 0 -> broken p = true.
-Proof. apply (run_inv es (pool0 n) NR (inv0 n)). Qed.
+Proof. apply (run_inv es (pool0 n) (inv0 n)). Qed.
 
 Theorem futures_accounted : submitted p = ok p + failB p + failS p + pending p.
-Proof. apply (run_inv es (pool0 n) NR (inv0 n)). Qed.
+Proof. apply (run_inv es (pool0 n) (inv0 n)). Qed.
 
 Theorem manager_gone_means_all_settled :
   mgr p = MDone -> pending p = 0 /\ procs p = [] /\ closed p = true.
-Proof. intros M. pose proof (run_inv es (pool0 n) NR (inv0 n)) as (_ & _ & _ & _ & I). fold p in I. rewrite M in I. exact I. Qed.
+Proof. intros M. pose proof (run_inv es (pool0 n) (inv0 n)) as (_ & _ & _ & _ & I). fold p in I. rewrite M in I. exact I. Qed.
 
 Theorem after_the_manager_nothing_is_accepted : mgr p = MDone -> user p = true -> step p Submit = refuse p.
 Proof.
   intros M U. destruct (manager_gone_means_all_settled M) as (_ & _ & C).
-  pose proof (run_inv es (pool0 n) NR (inv0 n)) as (_ & _ & _ & SL & _). fold p in SL.
+  pose proof (run_inv es (pool0 n) (inv0 n)) as (_ & _ & _ & SL & _). fold p in SL.
   pose proof (sublive_closed p SL C) as SN.
   unfold step, lock_free. rewrite U, SN. cbn [andb]. rewrite (checks_fail_when_closed p C U). reflexivity.
 Qed.
@@ -532,7 +562,7 @@ Proof.
       pose proof (flag_shutdown_sets None p) as Xs. cbv zeta in Xs. destruct Xs as (_ & _ & _ & _ & _ & _ & _ & _ & _ & _ & FSs & _ & Ks).
       destruct o; try discriminate; destruct t; unfold Inv5, cprim; simpl; try (destruct (lock_free p); simpl; rewrite ?E);
         rewrite ?FSb, ?Kb, ?FSs, ?Ks, ?K; auto.
-  - destruct (user p); try exact HI; try (apply (inv5_ext p); simpl; auto).
+  - destruct (user p && (negb resize_tops_up_only_on_a_live_pool || negb (closed p) && negb (broken p))); try exact HI; try (apply (inv5_ext p); simpl; auto).
 Qed.
 Theorem graceful_never_drops es n : never_kill es = true -> failS (run es (pool0 n)) = 0.
 Proof.
@@ -543,14 +573,14 @@ Proof.
   apply (H (pool0 n)); [unfold Inv5, pool0; simpl; auto | exact N].
 Qed.
 Theorem graceful_delivers_everything es n :
-  never_kill es = true -> no_resize es = true -> let p := run es (pool0 n) in
+  never_kill es = true -> let p := run es (pool0 n) in
   mgr p = MDone -> broken p = false -> ok p = submitted p /\ procs p = [] /\ closed p = true.
 Proof.
-  intros NK NR p M B.
-  destruct (manager_gone_means_all_settled n es NR M) as (Z & E & C). fold p in Z, E, C.
-  pose proof (futures_accounted n es NR) as A. fold p in A.
+  intros NK p M B.
+  destruct (manager_gone_means_all_settled n es M) as (Z & E & C). fold p in Z, E, C.
+  pose proof (futures_accounted n es) as A. fold p in A.
   pose proof (graceful_never_drops es n NK) as S. fold p in S.
-  pose proof (loud_before_any_broken_future n es NR) as L. fold p in L.
+  pose proof (loud_before_any_broken_future n es) as L. fold p in L.
   assert (failB p = 0) by (destruct (failB p) eqn:F; [reflexivity | rewrite L in B by lia; discriminate]).
   repeat split; auto. lia.
 Qed.
@@ -590,12 +620,13 @@ Proof.
   cbv -[Nat.add]. repeat split; reflexivity.
 Qed.
 
-(* H8 on the model: a resize top-up that arrives after the manager is gone leaves workers nobody will ever kill or reap *)
+(* H8 on the model (fixed): an unguarded top-up that arrives after the manager is gone leaves workers nobody will ever kill or
+   reap; the guarded one (what ResizeTopUp is now) does nothing on a broken pool *)
 Definition submit_all : list ev := Submit :: repeat SubmitStep 7.
-Example resize_after_the_end_leaves_workers :
-  let p := run (submit_all ++ [Crash 0; Detect; MgrOp; MgrOp; MgrOp; MgrOp; MgrOp; MgrOp; MgrOp; MgrOp; MgrOp; MgrOp; MgrOp; ResizeTopUp]) (pool0 2) in
-  mgr p = MDone /\ procs p = [WAlive; WAlive] /\ broken p = true.
-Proof. vm_compute. auto. Qed.
+Example unguarded_resize_after_the_end_leaves_workers :
+  let p := run (submit_all ++ [Crash 0; Detect; MgrOp; MgrOp; MgrOp; MgrOp; MgrOp; MgrOp; MgrOp; MgrOp; MgrOp; MgrOp; MgrOp]) (pool0 2) in
+  mgr p = MDone /\ procs p = [] /\ broken p = true /\ procs (top_up p) = [WAlive; WAlive] /\ step p ResizeTopUp = p.
+Proof. vm_compute. auto 6. Qed.
 
 Example graceful_example :
   let p := run (submit_all ++ submit_all ++ [Complete 0; ShutdownCall false; CheckShut; MgrOp; MgrOp; MgrOp; Complete 1; CheckShut; MgrOp; MgrOp;
